@@ -221,6 +221,8 @@ def run(ctx) -> None:
         ctx.check("R7", good, f"Version.__str__: segment '{seg}' printed when it `is not None`", f"{M}.Version.__str__: segment '{seg}' is tested by truthiness (a number of 0 is dropped)",
                   f"`if {unparse(t)}`: 1.0.{seg}0 would print without its {seg} segment", loc=vs.loc(st), witness=f"1.0.{seg}0")
     ctx.floor("R7", "optional segments in Version.__str__", n_seg, 5)
+    from checks.c15 import to_pep440_rule
+    to_pep440_rule(ctx, "R7")
     plv = prog.function(f"{M}._parse_letter_version")
     g = cfgs.get(plv.fq)
     # the lower-cased spelling is stored back into the parameter or into a local; every spelling test reads that variable
@@ -266,6 +268,21 @@ def run(ctx) -> None:
                       f"`{unparse(e)}`: 1.0+ABC and 1.0+abc compare unequal and print differently, although PEP 440 treats them as the same version", loc=plo.loc(e),
                       witness=["1.0+ABC", "1.0+abc"])
     ctx.floor("R8", "alternatives of a local segment", len(alts), 2)
+    # (b') legacy keys are case-normalised: the tokenizer receives the lower-cased string
+    lck = prog.function(f"{M}._legacy_cmpkey")
+    ctx.visit(lck.fq)
+    tok_calls = shapes.find_calls(prog, lck, f"{M}._parse_version_parts")
+    ctx.floor("R8", "_parse_version_parts calls in _legacy_cmpkey", len(tok_calls), 1)
+    for c in tok_calls:
+        arg = shapes.inline(lck, c.args[0], prog) if c.args else None
+        lowered = arg is not None and isinstance(arg, ast.Call) and isinstance(arg.func, ast.Attribute) and arg.func.attr in ("lower", "casefold") \
+            and any(isinstance(x, ast.Name) and x.id == lck.params[0] for x in ast.walk(arg.func.value))
+        inside = any(isinstance(x, ast.Call) and isinstance(x.func, ast.Attribute) and x.func.attr in ("lower", "casefold")
+                     for x in ast.walk(prog.function(f"{M}._parse_version_parts").node))
+        ctx.check("R8", lowered or inside, "legacy key: the version string is lower-cased before it is split into parts",
+                  f"{M}._legacy_cmpkey: legacy versions are compared case-sensitively",
+                  f"`{unparse(c)}`: 'v2017Q1' and 'v2017q1' get different keys, upper-case words sort before lower-case ones, and RC/Pre/Preview are no longer mapped to 'c'",
+                  loc=lck.loc(c), witness=["v2017Q1.54321", "v2017q1.54321"])
     # (b) legacy keys: a tuple of strings; numbers padded so that string order is numeric order
     pvp = prog.function(f"{M}._parse_version_parts")
     ctx.visit(pvp.fq)
